@@ -153,7 +153,12 @@ let () =
              | GLoop (c, _) ->
                let q = !st.queue c in
                if (r.kind = k_load && q = []) || (r.kind = k_rmw && q <> []) then begin
-                 apply idx GLoopStep; check_safe idx end
+                 apply idx GLoopStep; check_safe idx;
+                 (* the emptiness test that follows a pop has no scheduling point of its own *)
+                 (match !st.gct with
+                  | GLoop (c', _) when r.kind = k_rmw && !st.queue c' = [] -> apply idx GLoopStep
+                  | _ -> ())
+               end
              | _ -> ()
            end else if r.kind = k_reclaim && r.ok >= 0 then begin
              incr frees;
